@@ -15,8 +15,8 @@ CLAIMED = {
    note="Proved for the tree (literal model, every identifier string): one node per path in every reachable state (session_tree_keys_unique, "
         "over all operations); a created grant is stored as created, linked into its client and user node, and creation touches its own branch only "
         "(created_grant_is_stored, created_grant_is_linked, creation_is_local); a removed session is gone and nothing outside its branch changes "
-        "(removed_grant_is_gone, removal_is_local); revocation at any level reaches every node below it through subordinate links at any depth, changes nothing else and never changes the shape of the tree (revoke_covers_subtree, revoke_is_local, revoke_keeps_tree). Deletion at user / client level is checked by oracle + "
-        "correspondence on histories, not proved; Fernet idealised.",
+        "(removed_grant_is_gone, removal_is_local); revocation at any level reaches every node below it through subordinate links at any depth, changes nothing else and never changes the shape of the tree (revoke_covers_subtree, revoke_is_local, revoke_keeps_tree); delete_sub_tree and the removal of a user take everything at or below the node, at any depth and also when branches share nodes, and nothing else (deleted_subtree_is_gone, subtree_deletion_is_local, deleted_user_is_gone). Database.delete at client level (with its unlinking from the parent) and the parent-link consistency invariant over all histories are checked by oracle + "
+        "correspondence, not proved; Fernet idealised.",
    technique="Lean 4 proof (induction on strings) + model/implementation correspondence on operation histories", ref="6 C14"),
  "C17": dict(
    text="Lean theorems for every value/type/timestamp string and every crypto instance satisfying functional correctness (Sound): round trip in "
@@ -33,7 +33,7 @@ CLAIMED = {
         "introspection, refresh, token exchange, code redemption); revocation of a grant, of a client session (logout-one), logout from all "
         "clients and of a single token kills exactly the tokens the property names — a recursive token revocation every token derived from it through ANY number of based_on links (revoke_token_cascades, by an acyclicity invariant of reachable states) — (cascade theorems incl. logout_all_cascades, using the "
         "proved identity invariant of reachable states); revocation and removal are "
-        "local (frame theorems). Tie: per-step correspondence of outcomes and full token/grant projections on generated histories + a reference "
+        "local (frame theorems incl. revoke_token_is_grant_local: a token revocation, recursive or not, leaves every token of every other grant as it was). Tie: per-step correspondence of outcomes and full token/grant projections on generated histories + a reference "
         "liveness oracle probing every token at userinfo and introspection after every step.",
    note="Token exchange is in the model (opaque handlers; with JWT handlers the JWT's own exp is not modelled); a token exchanged by ANOTHER client "
         "is not reached by the recursive revocation of its ancestors: known finding F-C03-b; cryptography/token codecs idealised as fresh handles (C04 covers resolution).",
